@@ -46,7 +46,10 @@ macro_rules! gated_publish {
         let _guard = GateGuard { w: w.clone(), id: gid };
         let mode = w.gates.borrow()[gid].payload_mode;
         match mode {
-            PayloadMode::Eager => match $p.read_all().await {
+            PayloadMode::Eager => match {
+                w.ev(Ev::PayloadWait { gate: gid });
+                $p.read_all().await
+            } {
                 Ok(b) => w.ev(Ev::PayloadEnd { gate: gid, total: b.len(), digest: digest_bytes(&b), err: None }),
                 Err(e) => w.ev(Ev::PayloadEnd { gate: gid, total: 0, digest: 0, err: Some(format!("{e:?}")) }),
             },
@@ -54,6 +57,7 @@ macro_rules! gated_publish {
                 let mut all: Vec<u8> = Vec::new();
                 loop {
                     w.gate_wait_read(gid).await;
+                    w.ev(Ev::PayloadWait { gate: gid });
                     match $p.read().await {
                         Ok(Some(b)) => {
                             w.ev(Ev::PayloadPiece { gate: gid, len: b.len(), digest: digest_bytes(&b) });
@@ -241,6 +245,7 @@ pub async fn run_server(w: Rc<World>, plan: Rc<Plan>) {
     let (w2, p2) = (w.clone(), plan.clone());
     let ctl = fn_factory_with_config(move |ses: v3::Session<St>| {
         let (w, gated, conn) = (w2.clone(), p2.cfg.ctl_gated, ses.conn);
+        w.ev(Ev::Session { conn });
         async move {
             Ok::<_, AppErr>(fn_service(move |msg: Control<AppErr>| control_handler(w.clone(), conn, gated, msg)))
         }
@@ -365,6 +370,9 @@ pub async fn run_client(w: Rc<World>, plan: Rc<Plan>) {
         start_senders(&w, &plan, client.sink());
         let (wa, wb) = (w.clone(), w.clone());
         let gated = plan.cfg.ctl_gated;
+        if !plan.cfg.use_router {
+            w.ev(Ev::Session { conn: cid });
+        }
         let res = if plan.cfg.use_router {
             let wr = w.clone();
             client
